@@ -188,12 +188,100 @@ Example C06_introduce_parameter_nonvacuous :
 Proof. exact introduce_parameter_nonvacuous. Qed.
 Print Assumptions C06_introduce_parameter_nonvacuous.
 
+(* The open finding introduce-before-vararg, exactly: for EVERY valid call with surplus positional
+   arguments the introduced parameter takes the first of them and *a loses it; nothing else moves.
+   The harness attributes a failure to that finding only when rope's output shows this behaviour. *)
+Theorem C06_introduce_surplus :
+  forall d c p e b,
+    bind d c = Some b ->
+    has_name p (names d ++ opt_list (d_star d) ++ opt_list (d_kw d) ++ map fst (c_kws c)) = false ->
+    has_surplus d c = true ->
+    exists x rest b', b_star b = x :: rest /\ bind (introduce_def d p e) c = Some b'
+      /\ (forall n, In n (names d) -> lookup n b' = lookup n b)
+      /\ lookup p b' = Some x /\ b_star b' = rest /\ b_kw b' = b_kw b.
+Proof. exact introduce_surplus. Qed.
+Print Assumptions C06_introduce_surplus.
+
+Example C06_introduce_surplus_nonvacuous :
+  exists d c p e b, d = mkDef [(1, None)]%N (Some 7%N) None
+    /\ c = mkCall 20%N [30; 31; 32]%N [] None None false false /\ p = 3%N /\ e = 40%N
+    /\ bind d c = Some b
+    /\ has_name p (names d ++ opt_list (d_star d) ++ opt_list (d_kw d) ++ map fst (c_kws c)) = false
+    /\ has_surplus d c = true.
+Proof. exact introduce_surplus_nonvacuous. Qed.
+Print Assumptions C06_introduce_surplus_nonvacuous.
+
 Theorem C06_introduce_before_vararg_refuted :
   exists d c p e b b', bind d c = Some b /\ bind (introduce_def d p e) c = Some b'
     /\ has_name p (names d ++ opt_list (d_star d) ++ opt_list (d_kw d) ++ map fst (c_kws c)) = false
     /\ b_star b = [31%N] /\ b_star b' = [] /\ lookup p b' = Some 31%N /\ e = 40%N.
 Proof. exact introduce_before_vararg_refuted. Qed.
 Print Assumptions C06_introduce_before_vararg_refuted.
+
+(* An argument the call passes stays an argument: if the call passed v to parameter n explicitly
+   (positionally or by keyword) and n survives, the rewritten call passes v to n explicitly as well --
+   it is never dropped in favour of a default that merely has the same spelling (a default is
+   evaluated when the def runs, an argument at every call: mutable defaults, rebound globals). *)
+Theorem C06_explicit_preserved :
+  forall rdel d cs c d' c' b n v,
+    apply_defs cs d = Some d' -> change_call rdel cs d c = Some c' ->
+    side_ok rdel d cs c d' = true -> bind d c = Some b ->
+    In n (names d) -> In n (names d') -> passed d c n = Some v -> passed d' c' n = Some v.
+Proof. exact explicit_preserved. Qed.
+Print Assumptions C06_explicit_preserved.
+
+Example C06_explicit_preserved_nonvacuous : forall rdel,
+  exists d cs c d' c' b n v,
+    d = mkDef [(1, None); (2, Some 10); (3, Some 10)]%N None None
+    /\ cs = [Add 1 4%N (Some 12%N) None]
+    /\ c = mkCall 20%N [30]%N [(3, 10)]%N None None false false
+    /\ apply_defs cs d = Some d' /\ change_call rdel cs d c = Some c'
+    /\ side_ok rdel d cs c d' = true /\ bind d c = Some b
+    /\ n = 3%N /\ v = 10%N /\ In n (names d) /\ In n (names d') /\ passed d c n = Some v
+    /\ c_kws c' = [(3, 10)]%N.
+Proof. exact explicit_preserved_nonvacuous. Qed.
+Print Assumptions C06_explicit_preserved_nonvacuous.
+
+(* Project level (call-site discovery of _change_calls over what the callee expression denotes):
+   every call site that the occurrence finders reach -- calls of the function itself and, for __init__,
+   calls of its class (_MultipleFinders) -- is read, changed and printed so that C06_preserve_text holds
+   for it.  C06_subclass_ctor_refuted: a constructor call through a subclass that inherits __init__ is
+   not reached, its text stays and its arguments reach other parameters (open finding). *)
+Theorem C06_site_preserve :
+  forall rdel is_init d cs s d' r' c b,
+    finder_finds is_init (ps_callee s) = true ->
+    apply_defs cs d = Some d' -> change_site rdel is_init d cs s = Some r' ->
+    call_read d (ps_implicit s) (ps_ctor s) (ps_call s) = Some c ->
+    side_ok rdel d cs c d' = true -> recv_ok d c d' = true -> bind d c = Some b ->
+    exists c2 b', call_read d' (ps_implicit s) (ps_ctor s) r' = Some c2 /\ bind d' c2 = Some b'
+      /\ (forall n, In n (names d) -> In n (names d') -> lookup n b' = lookup n b)
+      /\ b_star b' = b_star b /\ b_kw b' = b_kw b /\ map fst (b_params b') = names d'.
+Proof. exact site_preserve. Qed.
+Print Assumptions C06_site_preserve.
+
+Example C06_site_preserve_nonvacuous : forall rdel,
+  exists d cs s d' r' c b,
+    d = mkDef [(1, None); (2, None); (3, Some 10)]%N None None
+    /\ cs = [Reorder [0; 2; 1] (Some 11%N)]
+    /\ s = mkPsite CClass false true (mkRend None 20%N [31]%N [(3, 32)]%N None None)
+    /\ finder_finds true (ps_callee s) = true
+    /\ apply_defs cs d = Some d' /\ change_site rdel true d cs s = Some r'
+    /\ call_read d (ps_implicit s) (ps_ctor s) (ps_call s) = Some c
+    /\ side_ok rdel d cs c d' = true /\ recv_ok d c d' = true /\ bind d c = Some b
+    /\ r' = mkRend None 20%N [32; 31]%N [] None None.
+Proof. exact site_preserve_nonvacuous. Qed.
+Print Assumptions C06_site_preserve_nonvacuous.
+
+Theorem C06_subclass_ctor_refuted : forall rdel,
+  exists d cs s d' r' c c2 b b',
+    s = mkPsite CSubclass false true (mkRend None 21%N [31; 32]%N [] None None)
+    /\ apply_defs cs d = Some d' /\ valid_def d' = true
+    /\ change_site rdel true d cs s = Some r' /\ r' = ps_call s
+    /\ call_read d false true (ps_call s) = Some c /\ bind d c = Some b
+    /\ call_read d' false true r' = Some c2 /\ bind d' c2 = Some b'
+    /\ lookup 2%N b = Some 31%N /\ lookup 2%N b' = Some 32%N.
+Proof. exact subclass_ctor_refuted. Qed.
+Print Assumptions C06_subclass_ctor_refuted.
 
 (* Normalising a call twice gives the same call as normalising it once, for every call (valid or
    not, with or without starred arguments) against every definition with distinct parameter names. *)
